@@ -553,12 +553,14 @@ def _oracle_graph(case):
                 fails.append(_fail("nauty-invariant", "isomorphic graphs get different signatures; A=%r B=%r" % (p0, h)))
         if len(fails) >= 4:
             break
-    # the multi-step clauses run on every case of the small / special populations and on every third iso3 / iso4 case
+    # the multi-step clauses run on every case of the small / special populations, every 2nd random and every 4th iso3 / iso4 case
     deep = case.get("deep", case.get("sub") not in ("neighbour", "iso3", "iso4"))
     if len(fails) < 4 and deep and len(case["g"]["nodes"]) <= 16:
         _oracle_history(case, fails)
     if len(fails) < 4 and deep and len(case["g"]["nodes"]) <= 12:
         _oracle_nauty_direct(case, fails)
+    if len(fails) < 4 and deep and len(case["g"]["nodes"]) <= 12:
+        _oracle_surface(case, fails)
     return fails[:4]
 
 
@@ -635,6 +637,60 @@ def _oracle_nauty_direct(case, fails):
         m = {v: i + 1 for i, v in enumerate(perm)}
         if _abstract(res2[0]) != _abstract(plain) or res2[1] != perm or [[m[v] for v in a] for a in auts] != res2[2]:
             fails.append(_fail("faithful/nauty", "remap_aut / keyword call inconsistent with the positional call; input %r" % (pres[0],)))
+
+
+def _oracle_surface(case, fails):
+    """The rest of the public surface: the twin module synkit.Graph.Canon.canon_graph, aliases, constructor options
+    (node_attrs reduced / permuted, wl_iterations, morgan_radius, custom sort keys), canonicalise_graph(s), SynGraph views."""
+    import synkit.Graph.canon_graph as M1
+    import synkit.Graph.Canon.canon_graph as M2
+    from synkit.Graph.syn_graph import SynGraph
+    pres = [case["g"]] + [a["g"] for a in case.get("alts", [])]
+    P0 = _nx(pres[0])
+    n = P0.number_of_nodes()
+    for be in BACKENDS:
+        c1, c2 = M1.GraphCanonicaliser(backend=be), M2.GraphCanonicaliser(backend=be)
+        s1 = c1.canonical_signature(P0)
+        # twin module, aliases, wrappers' accessors
+        if c2.canonical_signature(_nx(pres[0])) != s1 or _abstract(c2.make_canonical_graph(_nx(pres[0]))) != _abstract(c1._make_canonical_graph(P0)):
+            fails.append(_fail("sig-function/%s" % be, "synkit.Graph.Canon.canon_graph and synkit.Graph.canon_graph disagree; input %r" % (pres[0],)))
+        if c1.graph_canonical_hash(P0) != s1 or c1.canonicalise_graph(P0).canonical_hash != M1.CanonicalGraph(P0, c1).canonical_hash \
+                or M2.CanonicalGraph(P0, c2).canonical_hash != M1.CanonicalGraph(P0, c1).canonical_hash:
+            fails.append(_fail("value-objects", "alias / canonicalise_graph / twin-module CanonicalGraph disagree (%s); input %r" % (be, pres[0])))
+        ws = c1.canonicalise_graphs([_nx(p) for p in pres] + [_nx(h) for h in case.get("others", [])])
+        hs = [w.canonical_hash for w in ws]
+        if hs != sorted(hs) or sorted(hs) != sorted(c1.canonical_signature(w.canonical_graph) for w in ws) \
+                or sorted(c1.canonical_signature(w.original_graph) for w in ws) != sorted(
+                    c1.canonical_signature(_nx(p)) for p in pres + list(case.get("others", []))):
+            fails.append(_fail("value-objects", "canonicalise_graphs: not sorted by hash / hashes are not the signatures of the twins / originals lost (%s); input %r" % (be, pres[0])))
+        sg = SynGraph(P0, c1)
+        sg0 = SynGraph(_nx(pres[0]), c1, canon=False)
+        if sg0.canonical is not None or sg0.signature != s1 or not (sg0 == sg) or hash(sg0) != hash(sg) \
+                or list(sg.get_nodes()) != list(P0.nodes(data=True)) or list(sg.get_edges(data=False)) != list(P0.edges()) \
+                or sg.number_of_nodes() != n or sg.raw is not P0 or _abstract(sg.canonical) != _abstract(c1.make_canonical_graph(P0)) \
+                or (sg == P0) or (sg == 7):
+            fails.append(_fail("value-objects", "SynGraph views / canon=False / comparison with foreign objects (%s); input %r" % (be, pres[0])))
+    # options: attribute selections in another order or reduced (positional backend is keyword-only by design)
+    for be, kw in (("nauty", dict(node_attrs=["hcount", "charge", "aromatic", "element"])), ("nauty", dict(node_attrs=["element"])),
+                   ("wl", dict(node_attrs=["charge", "element", "hcount", "aromatic"], wl_iterations=1)), ("wl", dict(wl_iterations=5)),
+                   ("morgan", dict(morgan_radius=1)), ("morgan", dict(node_attrs=["element", "hcount"], morgan_radius=5)),
+                   ("generic", dict(node_sort_key=lambda n, d: (d.get("hcount", 0), d.get("element", "")),
+                                    edge_sort_key=lambda u, v, d: (tuple(sorted((u, v))), repr(d.get("order")))))):
+        c = M1.GraphCanonicaliser(backend=be, **kw)
+        cg = c.make_canonical_graph(P0)
+        if sorted(cg.nodes) != list(range(1, n + 1)) or _iso(_full(P0), _full(cg)) is None:
+            fails.append(_fail("faithful/%s" % be, "options %r: canonical graph is not the input relabelled onto 1..N; input %r" % (sorted(kw), pres[0])))
+        s0 = c.canonical_signature(P0)
+        for a in case.get("alts", []):
+            if (a["same_ids"] or (be == "nauty" and len(kw["node_attrs"]) == 4)) and c.canonical_signature(_nx(a["g"])) != s0:
+                fails.append(_fail("sig-function/%s" % be if a["same_ids"] else "nauty-invariant",
+                                   "options %r: another presentation of the same graph gets another signature; A=%r B=%r" % (sorted(kw), pres[0], a["g"])))
+        if "node_sort_key" not in kw:
+            for h in case.get("others", []):
+                if c.canonical_signature(_nx(h)) == s0 and _iso(_cov(P0), _cov(_nx(h))) is None:
+                    fails.append(_fail("sig-sound/%s" % be, "options %r: equal signatures for non-isomorphic graphs A=%r B=%r" % (sorted(kw), pres[0], h)))
+        if len(fails) >= 4:
+            return
 
 
 def _fresh(G):
@@ -1278,8 +1334,8 @@ def gen_cases(tier, rng):
     # spread them over the shards instead of putting them into one
     k3 = 0
     for c in cases:
-        if c.get("sub") in ("iso3", "iso4"):
-            c["deep"] = (k3 % 3 == 0)
+        if c.get("sub") in ("iso3", "iso4", "random"):
+            c["deep"] = (k3 % (2 if c["sub"] == "random" else 4) == 0)
             k3 += 1
     step = max(1, len(cases) // (len(fam) + 1))
     for k, c in enumerate(fam):
